@@ -1,6 +1,7 @@
 package main
 
 import (
+	"math/big"
 	"verif/internal/refauth2"
 	"bytes"
 	"encoding/json"
@@ -58,6 +59,7 @@ type c12Hist struct {
 	Pre  map[int][]byte `json:"pre,omitempty"`  // pre-populated values (var index → value)
 	Pre2 map[int][]byte `json:"pre2,omitempty"` // a second overlay handed to the same With() call: it overrides
 	Ops []c12Op        `json:"ops"`
+	Direct bool        `json:"direct,omitempty"` // efivarfs.Open(store) instead of store.Open()
 }
 
 var c12Vars = func() []efivar.Efivar {
@@ -160,14 +162,19 @@ func c12RunHistory(c *WCase, res *WResult) {
 		}
 	}
 	var e *efivarfs.Efivarfs = tf.Open()
+	if h.Direct && len(h.Pre) == 0 {
+		// the store used without its own Open(): wrapped by the caller
+		e = efivarfs.Open(tf)
+	}
 	var ffs *fault.Fs
-	if len(h.Pre) == 0 {
+	if len(h.Pre) == 0 && !h.Direct {
 		// an in-memory filesystem of our own underneath, so that a single write can be made to fail
 		ffs = fault.NewFs(afero.NewMemMapFs())
 		tf.SetFS(ffs)
 	}
 	reads := 0
 	neverWritten := 0
+	unknown := map[int]bool{} // variables whose content an append write left unmodelled
 	fail := func(i int, kind, f string, a ...any) {
 		res.Val = fmt.Sprintf("VIOLATION|%s|step %d (%s on %s): %s", kind, i, h.Ops[i].Op, c12Vars[h.Ops[i].Var].Name, fmt.Sprintf(f, a...))
 	}
@@ -180,6 +187,7 @@ func c12RunHistory(c *WCase, res *WResult) {
 				return
 			}
 			model[c12File(op.Var)] = op.Bytes
+			delete(unknown, c12File(op.Var))
 		case "db":
 			db := c12dbArr(op.N, op.Salt, op.Rev, op.Split)
 			if err := e.WriteVar(v, db); err != nil {
@@ -191,6 +199,11 @@ func c12RunHistory(c *WCase, res *WResult) {
 			db := c12dbArr(op.N, op.Salt, op.Rev, op.Split)
 			k := keys.Get(op.Key)
 			cert := keys.Simple(k, "c12", 5)
+			if op.Key >= 4 {
+				// larger keys with an ordinary certificate (long names, extensions): descriptors of well over 2 KiB
+				cs := getCertSetPad(op.Key, keys.IssLongUTF8, big.NewInt(5), 7)
+				k, cert = cs.Key, cs.Cert
+			}
 			if err := e.WriteSignedUpdate(v, db, k.Priv, cert); err != nil {
 				fail(i, "write-error", "WriteSignedUpdate(database ×%d): %v", op.N, err)
 				return
@@ -208,6 +221,17 @@ func c12RunHistory(c *WCase, res *WResult) {
 				return
 			}
 			model[c12File(op.Var)] = db.Bytes()
+		case "appendraw":
+			// an append write (what it leaves in the store is not modelled); the next plain write
+			// replaces whatever is there
+			av := v
+			av.Attributes |= attributes.EFI_VARIABLE_APPEND_WRITE
+			if err := e.WriteVar(av, rawVal(op.Bytes)); err != nil {
+				fail(i, "write-error", "WriteVar with APPEND_WRITE: %v", err)
+				return
+			}
+			delete(model, c12File(op.Var))
+			unknown[c12File(op.Var)] = true
 		case "failwrite":
 			if ffs == nil {
 				continue
@@ -225,6 +249,9 @@ func c12RunHistory(c *WCase, res *WResult) {
 			want, ok := model[c12File(op.Var)]
 			var spy spyVal
 			err := e.GetVar(v, &spy)
+			if unknown[c12File(op.Var)] {
+				continue
+			}
 			if !ok {
 				// never written in this store (and not part of what it was created with): it does not exist
 				if err == nil {
@@ -261,6 +288,9 @@ func c12RunHistory(c *WCase, res *WResult) {
 			case 3:
 				db, err = e.Getdbx()
 			default:
+				continue
+			}
+			if unknown[c12File(op.Var)] {
 				continue
 			}
 			if !ok {
@@ -429,7 +459,7 @@ func checkC12(r *mon.Run) {
 				op.N = rng.Intn(6)
 				op.Salt = 1 + rng.Intn(3) // few salts: the same entries come back in other arrangements
 				op.Rev, op.Split = rng.Intn(2) == 0, rng.Intn(3) == 0
-				op.Key = rng.Intn(4)
+				op.Key = rng.Intn(8) // incl. the 4096-bit keys (descriptors of more than 2 KiB)
 				if rng.Intn(3) == 0 {
 					op.Op = "authblob"
 					op.Key = rng.Intn(len(c12Stamps))
@@ -447,8 +477,11 @@ func checkC12(r *mon.Run) {
 					op.Salt = s
 				} else {
 					op.Op = "raw"
-					if rng.Intn(6) == 0 {
+					switch rng.Intn(8) {
+					case 0:
 						op.Op = "failwrite"
+					case 1:
+						op.Op = "appendraw"
 					}
 					l := rng.Intn(64)
 					if rng.Intn(5) == 0 {
@@ -471,6 +504,9 @@ func checkC12(r *mon.Run) {
 					}
 				}
 				last[c12File(vi)] = nl
+			} else if op.Op == "appendraw" {
+				delete(last, c12File(vi))
+				r.Count("append_writes_generated", 1)
 			} else if op.Op == "failwrite" {
 				r.Count("failed_writes_generated", 1)
 			} else if op.Op == "raw" {
@@ -485,6 +521,10 @@ func checkC12(r *mon.Run) {
 			}
 			h.Ops = append(h.Ops, op)
 			d = append(d, fmt.Sprintf("%s:%d", op.Op, vi))
+		}
+		if len(h.Pre) == 0 && i%5 == 1 && i >= len(c12Directed) {
+			h.Direct = true
+			r.Count("histories_on_a_store_without_its_own_Open", 1)
 		}
 		hists = append(hists, h)
 		descs = append(descs, strings.Join(d, ","))
